@@ -50,6 +50,10 @@ RULE = (
     "orded as the callback sees it when called."
     " One listener ignores 1344 datagrams in bursts with a valid notification after each burs"
     "t."
+    ' Payload bindings named like the two leading ones; one sequence in four has a callback t'
+    "hat takes its trap's binding list apart (every delivery judged at callback time); datagr"
+    'ams with a fine envelope and a malformed PDU body or ONE malformed binding value are nev'
+    'er delivered; three listeners with communities of their own on one loop.'
 )
 ASSUMPTIONS = [
     "garbage is generated without the octet 0x80 (the indefinite-length spin of the external BER library belongs to C20 and would hang the listener)",
